@@ -110,7 +110,12 @@ fn draw_event(rng: &mut Rng, w: &World, plan: &Plan, special: &mut Option<Box<Sp
     }
     let v = View::of(&w.primary);
     if rng.chance(p.p_undo) && (v.can_undo || rng.chance(0.1)) {
-        return (Ev::Undo, None);
+        // guard of KF "undo of a row/column deletion": most runs explore past it
+        let top = w.undo_kinds.last().copied().unwrap_or("");
+        let guarded = p.guards && matches!(top, "DeleteRows" | "DeleteCols" | "InsertThenDelete");
+        if !guarded {
+            return (Ev::Undo, None);
+        }
     }
     if rng.chance(p.p_redo) && (v.can_redo || rng.chance(0.1)) {
         return (Ev::Redo, None);
@@ -126,6 +131,10 @@ fn log_event(h: &mut Fnv, ev: &Ev, result: &str, w: &World) {
     for f in &w.followers {
         h.write_u64(crate::snap::hash(&crate::snap::snapshot(&f.node)));
     }
+}
+
+fn slow_report() -> bool {
+    std::env::var("VERIF_TIMING").is_ok()
 }
 
 pub struct RunOpts {
@@ -151,7 +160,11 @@ fn execute(
     let mut idx = 0usize;
     while let Some((ev, fault)) = next(world, idx) {
         oracle.before(world, &ev);
+        let t_ev = std::time::Instant::now();
         let res = world.step(&ev);
+        if slow_report() && t_ev.elapsed().as_millis() > 200 {
+            eprintln!("slow event #{idx}: {} ms: {}", t_ev.elapsed().as_millis(), serde_json::to_string(&ev).unwrap_or_default());
+        }
         let result = match (&res.panic, &res.result) {
             (Some(p), _) => format!("panic: {p}"),
             (None, Ok(())) => "ok".to_string(),
@@ -169,7 +182,8 @@ fn execute(
         state_hashes.push(oracle.last_hash());
         match verdict {
             Verdict::Ok => {}
-            Verdict::Violation(v) => {
+            Verdict::Violation(mut v) => {
+                v.tags = crate::tags::compute(world, &trace, &v);
                 violation = Some(v);
                 break;
             }
@@ -188,7 +202,10 @@ fn execute(
     if violation.is_none() && abandoned.is_none() {
         match oracle.finish(world, idx) {
             Verdict::Ok => {}
-            Verdict::Violation(v) => violation = Some(v),
+            Verdict::Violation(mut v) => {
+                v.tags = crate::tags::compute(world, &trace, &v);
+                violation = Some(v)
+            }
             Verdict::Abandon(a) => abandoned = Some(a.0),
         }
     }
